@@ -556,7 +556,8 @@ def judge(S: Session, mtype: int, body: bytes, valid: bool, do_seam2=True):
             k2 = o2[0] if o2[0] != 'notify' else ('notify', o2[1], o2[2])
             same = k1 == k2 or (o1[0] == 'exc' and o1[1] == 'unpack' and o2[0] == 'notify' and (o2[1], o2[2]) == (1, 0)) \
                 or (o1[0] == 'exc' and o1[1] == 'render' and o2[0] in ('exc', 'ok', 'notification')) \
-                or (o1[0] == 'notify' and o1[1] == 'render' and o2[0] in ('ok', 'notify'))
+                or (o1[0] == 'notify' and o1[1] == 'render' and o2[0] in ('ok', 'notify')) \
+                or (o1[0] == 'budget' and o1[1] == 'render' and o2[0] in ('ok', 'budget'))
             if not same:
                 viols.append((f'seam-divergence:{T}:{o1[0]}-vs-{o2[0]}', f'direct decode gave {o1[:4]}, read_message gave {o2[:3]}'))
     if o1 is not None:
